@@ -54,6 +54,24 @@ def run(ck, families=None):
         elif v == "host_down":
             ck.violation("host-down", "real run did not return a value or error: %s\n%s" % (real[p["id"]], p["src"]),
                          {"program": p, "real": real[p["id"]]})
+    # bytecode level: the recorded instruction-by-instruction run of the real VM must be a behaviour of TengoVM.tla
+    vmp = [p for p in progs if not p.get("stdlib")]
+    if quick:
+        vmp = vmp[::3]
+    vv = semlib.vm_validate(ck, vmp, njobs=12)
+    vstats = {}
+    for p in vmp:
+        o = vv.get(p["id"], {"v": "skipped"})
+        vstats[o["v"]] = vstats.get(o["v"], 0) + 1
+        ck.evaluations += 1
+        if o["v"] == "accepted":
+            ck.traces += 1
+            ck.extra["vm_events_validated"] = ck.extra.get("vm_events_validated", 0) + o.get("n", 0)
+        elif o["v"] == "rejected":
+            ck.violation("vm-trace:" + str(o["why"]).split(":")[0][:40],
+                         "the recorded run of the real VM is not a behaviour of TengoVM.tla: %s at event %s of %s (%s)\n%s" % (
+                             o["why"], o.get("at"), o.get("n"), json.dumps(o.get("event"))[:200], p["src"]), {"program": p, "vm": o})
+    ck.extra["vm_trace_verdicts"] = vstats
     ck.extra["verdicts"] = stats
     ck.extra["programs"] = len(progs)
     ck.rule = ("programs printed from the harness AST (smoke family + seeded random compositions); non-trivial = distinct source "
